@@ -197,6 +197,8 @@ func newPrivWorld(env *kernel.Env, disk *simDisk, load []byte) *privWorld {
 	pw.root.MustExec("INSERT INTO d.t3 VALUES (1, 1)")
 	pw.root.MustExec("CREATE PROCEDURE d.p1() SELECT 1")
 	pw.root.MustExec("CREATE VIEW d.vw AS SELECT id FROM d.t3")
+	pw.root.MustExec("CREATE DATABASE e")
+	pw.root.MustExec("CREATE TABLE e.t1 (id INT PRIMARY KEY, a INT)")
 	return pw
 }
 
@@ -369,7 +371,14 @@ func runPriv(env *kernel.Env, cfg privCfg) {
 			sort.Strings(out)
 			return out
 		}
-		switch T.Pick(3, 2, 8, 4, 3, 1, 1, 1) {
+		switch T.Pick(3, 2, 8, 4, 3, 1, 1, 1, 1) {
+		case 8: // a grant in a second database (sorting after d): database-level there, whatever the account holds in d
+			all := append(existing(false), existing(true)...)
+			if len(all) == 0 {
+				continue
+			}
+			n := all[T.Draw(len(all))]
+			q = fmt.Sprintf("GRANT %s ON %s TO %s", []string{"SELECT", "INSERT, DELETE", "UPDATE"}[T.Draw(3)], []string{"e.*", "e.*", "e.t1"}[T.Draw(3)], ref(n))
 		case 7: // a dynamic privilege (global only), with or without the grant option
 			all := append(existing(false), existing(true)...)
 			if len(all) == 0 {
